@@ -23,11 +23,15 @@ func VerifCount(r CharRecipe) *big.Int {
 	return r.n()
 }
 
-// verifCanonical sorts an alphabet or word list, so that the element drawn for a given
-// index is a function of the recipe and not of Go's map iteration order.
+// verifCanonical returns a sorted copy of an alphabet or word list, so that the element
+// drawn for a given index is a function of the recipe and not of Go's map iteration order.
+// It sorts a copy, never its argument: were the argument to share memory with something
+// the caller can see, sorting it in place would tidy that memory up again and hide the sharing.
 func verifCanonical(cl []string) []string {
-	sort.Strings(cl)
-	return cl
+	out := make([]string, len(cl))
+	copy(out, cl)
+	sort.Strings(out)
+	return out
 }
 
 // VerifClassTable returns a copy of the flag-to-characters table.
